@@ -648,3 +648,46 @@ def corpus7(per_family=24):
         for _ in range(per_family):
             out.append((fam(r) + HARNESS, fam.__name__))
     return out
+
+
+# ------------------------------------------------------------------------------------------- eighth wave: receivers
+
+RECEIVERS = ["Parser", "Parser()", "p", "self.parser", "make_parser()", "PARSERS[0]", "Pipeline().parser", "(p or Parser())"]
+
+
+def fam_member_receivers(r):
+    """members (static method, method that does not use self, class attribute) reached through every kind of receiver: the class,
+    an instance in a variable, an attribute chain, a call result, a subscript"""
+    m = r.choice(["normalize", "Normalize", "cleanUp"])
+    plain = r.choice(["plain", "plainOne"])
+    attr = r.choice(["sep", "SEP", "sepChar"])
+    r1, r3 = r.choice(RECEIVERS), r.choice(RECEIVERS)
+    r2 = r.choice(RECEIVERS[1:])  # not through the class: Parser.plain(y) passes y as self (recorded finding explicit-self-call)
+    inner = [x for x in (r1, r2, r3) if x.startswith("self.")]
+    outer = [x if not x.startswith("self.") else "Pipeline().parser" for x in (r1, r2, r3)]
+    run_body = ", ".join([f"self.parser.{m}(v)"] + [f"{inner[0]}.{plain}(v)" if inner else f"self.parser.{attr}"])
+    return (f"class Parser:\n    {attr} = '-'\n\n    @staticmethod\n    def {m}(token):\n        return str(token) + '!'\n\n    def {plain}(self, v):\n        return v * 2\n\n\n"
+            f"def make_parser():\n    return Parser()\n\n\nPARSERS = [Parser()]\n\n\n"
+            f"class Pipeline:\n    def __init__(self):\n        self.parser = Parser()\n\n    def run(self, v):\n        return {run_body}\n\n\n"
+            f"def f(x, y):\n    p = Parser()\n    return {outer[0]}.{m}(x), {outer[1]}.{plain}(y), {outer[2]}.{attr}, Pipeline().run(x)\n")
+
+
+def fam_set_dedup(r):
+    """a set (literal, call or comprehension) whose only job is to drop duplicates, consumed by a comprehension / sum / sorted / len"""
+    inner = r.choice(["{w for w in words if w}", "set(words)", "{w % 3 for w in words}", "frozenset(words)"])
+    outer = r.choice(["[w for w in INNER if w > 0]", "sum(w for w in INNER)", "sorted(w for w in INNER if w != 1)", "len([w for w in INNER])", "list(INNER)", "[w for w in sorted(INNER)]"])
+    return (f"def f(x, y):\n    words = [x, y, x, 2, 2, y, 5]\n    return {outer.replace('INNER', inner)}\n")
+
+
+FAMILIES8 = [fam_member_receivers, fam_set_dedup]
+
+
+def corpus8(per_family=36):
+    import random
+
+    out = []
+    for fam in FAMILIES8:
+        r = random.Random("8:" + fam.__name__)
+        for _ in range(per_family):
+            out.append((fam(r) + HARNESS, fam.__name__))
+    return out
